@@ -419,6 +419,17 @@ fn read_chain(c: &RCfg, scratch: &mut [u8], out: &mut Outcome<C11Trace>) -> Resu
     }
     ev_dev(out, "reader", &l.events);
     if l.cap_hit {
+        if l.eof_answers > 1000 {
+            // not a budget problem: the device said "end of stream" over and over and the decode
+            // kept asking
+            return Err(Fail {
+                clause: "does-not-terminate",
+                detail: format!(
+                    "the reader answered end-of-stream {} times at stream offset {} and the decode kept calling read ({} calls): a reader that is at its end must produce an error",
+                    l.eof_answers, l.pos, l.calls
+                ),
+            });
+        }
         return Err(Fail { clause: "harness-cap", detail: String::new() });
     }
     res
